@@ -9,6 +9,7 @@ import (
 	"strings"
 	"sync"
 	"testing"
+	"testing/iotest"
 
 	"github.com/ipfs/go-cid"
 	"github.com/ipfs/go-unixfsnode"
@@ -195,7 +196,7 @@ func TestC19(t *testing.T) {
 			if r.Quick() && sz > 64<<10 && s > 0 {
 				continue
 			}
-			gens = append(gens, g{"UnixFSFile", sz, s}, g{"UnixFSFile-shortsource", sz, s}, g{"UnixFSFile-failingsource", sz, s}, g{"UnixFSDirectory", sz, s}, g{"UnixFSDirectory-dirname", sz, s}, g{"UnixFSDirectory-sharded", sz, s}, g{"UnixFSDirectory-custom", sz, s},
+			gens = append(gens, g{"UnixFSFile", sz, s}, g{"UnixFSFile-shortsource", sz, s}, g{"UnixFSFile-failingsource", sz, s}, g{"UnixFSFile-dataeofsource", sz, s}, g{"UnixFSDirectory", sz, s}, g{"UnixFSDirectory-dirname", sz, s}, g{"UnixFSDirectory-sharded", sz, s}, g{"UnixFSDirectory-custom", sz, s},
 				g{"GenerateDirectory", sz, s}, g{"GenerateDirectory-sharded", sz, s}, g{"GenerateDirectoryFrom", sz, s}, g{"BuildDirectory", sz, s}, g{"WrapContent-exclusive", sz, s}, g{"WrapContent", sz, s})
 		}
 	}
@@ -289,6 +290,11 @@ func TestC19(t *testing.T) {
 					if err == nil && len(de.Content) > have {
 						c.Violation("C19|UnixFSFile-shortsource|content-longer-than-source", "UnixFSFile(size %d) on a source of %d bytes describes %d content bytes", gg.Size, have, len(de.Content))
 					}
+				case "UnixFSFile-dataeofsource":
+					// a finite source that hands out its last bytes together with io.EOF in one call
+					have := []int{1, gg.Size / 3, gg.Size - 1, gg.Size, 40}[gg.Var%5]
+					de, err = testutil.UnixFSFile(*ls, gg.Size, testutil.WithRandReader(iotest.DataErrReader(io.LimitReader(rnd, int64(have)))), testutil.WithChunker([]string{"size-1000", "size-64", "size-262144"}[gg.Var%3]))
+					c.Count("sources_ending_with_data_and_eof", 1)
 				case "UnixFSDirectory-stickysource":
 					// a random source that, for a stretch, keeps delivering one and the same byte (and so
 					// proposes one and the same name over and over) before it moves on
@@ -395,7 +401,7 @@ func TestC19(t *testing.T) {
 						}
 						if gg.Var%3 == 2 {
 							// names that path cleaning would swallow are names all the same
-							for _, odd := range []string{"/.", "/..", "/...", "/.hidden"} {
+							for _, odd := range []string{"/.", "/..", "/...", "/.hidden", "/ leading", "/trailing ", "/tab\t", "/\u00a0nbsp\u00a0", "/ ", "/draft", "/draft "} {
 								f := testutil.GenerateFile(t, ls, rnd, 40)
 								f.Path = odd
 								children = append(children, f)
